@@ -120,6 +120,61 @@ pub fn field_layer(t: &mut Tally, seed: u64) {
     bytes_mod_order::<F65521>(t, "F65521", &mut rng);
     batch_inv::<F7>(t, "F7");
     batch_inv::<F101>(t, "F101");
+    // SAMPLED (not exhaustive): the generator's unrolled multi-limb code against integers
+    multi_limb::<W2sp>(t, "derive N=2 spare bit", &mut rng);
+    multi_limb::<W2ns>(t, "derive N=2 no spare bit", &mut rng);
+    multi_limb::<W2s2>(t, "derive N=2 p=2^126-137 (two spare bits)", &mut rng);
+    multi_limb::<W2m127>(t, "derive N=2 p=2^127-1", &mut rng);
+    multi_limb::<W3ns>(t, "derive N=3 p=2^192-237", &mut rng);
+    multi_limb::<W4fr>(t, "derive N=4 BLS12-381 Fr", &mut rng);
+    multi_limb::<W4secp>(t, "derive N=4 secp256k1 Fq", &mut rng);
+    multi_limb::<W6fq>(t, "derive N=6 BLS12-381 Fq", &mut rng);
+}
+
+/// structured operands (limbs from {0, 1, 2^63, 2^64-2, 2^64-1, ...} reduced mod p, values next to 0 and p, seeded random ones):
+/// add, sub, neg, double, mul, square, inverse, sum_of_products, from/into_bigint against num-bigint
+fn multi_limb<F: PrimeField>(t: &mut Tally, name: &str, rng: &mut Rng) {
+    use num_bigint::BigUint;
+    let p = BigUint::from_bytes_le(&F::MODULUS.to_bytes_le());
+    let n = ((F::MODULUS_BIT_SIZE + 63) / 64) as usize;
+    let big = |x: &F| BigUint::from_bytes_le(&x.into_bigint().to_bytes_le());
+    let fe = |x: &BigUint| F::from_le_bytes_mod_order(&x.to_bytes_le());
+    let limbs = |l: &[u64]| { let mut b = vec![]; for x in l { b.extend_from_slice(&x.to_le_bytes()); } BigUint::from_bytes_le(&b) % &p };
+    let pool = [0u64, 1, 1 << 63, u64::MAX - 1, u64::MAX, 0x8000_0000_0000_0001, 0x7fff_ffff_ffff_ffff];
+    let mut ops: Vec<BigUint> = vec![0u8.into(), 1u8.into(), 2u8.into(), &p - 1u8, &p - 2u8, (&p - 1u8) >> 1u32, ((&p - 1u8) >> 1u32) + 1u8];
+    for &w in &pool { ops.push(limbs(&vec![w; n])); }
+    for k in 0..n { let mut v = vec![0u64; n]; v[k] = u64::MAX; ops.push(limbs(&v)); v[k] = 1; ops.push(limbs(&v)); let mut w = vec![u64::MAX; n]; w[k] = 0; ops.push(limbs(&w)); }
+    for _ in 0..60 { let v: Vec<u64> = (0..n).map(|_| { let r = rng.next(); if r % 3 == 0 { rng.next() } else { pool[(r % 7) as usize] } }).collect(); ops.push(limbs(&v)); }
+    for (i, ia) in ops.iter().enumerate() {
+        let a = fe(ia);
+        t.check(big(&a) == *ia, || format!("{name}: from_le_bytes_mod_order({ia}) reads back {}", big(&a)));
+        t.check(big(&a.square()) == (ia * ia) % &p, || format!("{name}: ({ia})^2"));
+        t.check(big(&a.double()) == (ia * 2u8) % &p && big(&(-a)) == (&p - ia) % &p, || format!("{name}: double / neg of {ia}"));
+        match a.inverse() { Some(inv) => t.check((inv * a).is_one(), || format!("{name}: inverse({ia})")), None => t.check(a.is_zero(), || format!("{name}: inverse({ia}) = None")) }
+        for d in 0..16usize {
+            let ib = &ops[(i + d * 7 + 1) % ops.len()];
+            let b = fe(ib);
+            t.check(big(&(a * b)) == (ia * ib) % &p, || format!("{name}: {ia} * {ib}"));
+            t.check(big(&(a + b)) == (ia + ib) % &p && big(&(a - b)) == (ia + &p - ib) % &p, || format!("{name}: {ia} +/- {ib}"));
+            let ic = &ops[(i + d * 11 + 3) % ops.len()];
+            let c = fe(ic);
+            t.check(big(&F::sum_of_products(&[a, b, c], &[b, c, a])) == (ia * ib + ib * ic + ic * ia) % &p, || format!("{name}: sum_of_products over {ia}, {ib}, {ic}"));
+        }
+    }
+    // inner products of every length 1..=9 on operands whose Montgomery representation is near p (the batching bound of the
+    // generated sum_of_products depends on the number of spare bits): x with x*R near p, i.e. x = (p - d) * R^{-1}
+    let r_inv = fe(&(BigUint::from(1u8) << (64 * n))).inverse().unwrap();
+    let near: Vec<F> = (1..=12u32).map(|d| fe(&(&p - d)) * r_inv).chain([fe(&(&p - 1u8)), fe(&((&p - 1u8) >> 1u32))]).collect();
+    macro_rules! sop { ($m:literal) => {{
+        for s in 0..near.len() {
+            let a: [F; $m] = core::array::from_fn(|k| near[(s + k) % near.len()]);
+            let b: [F; $m] = core::array::from_fn(|k| near[(s + 2 * k + 1) % near.len()]);
+            let e = a.iter().zip(&b).fold(BigUint::from(0u8), |acc, (x, y)| (acc + big(x) * big(y)) % &p);
+            let got = F::sum_of_products(&a, &b);
+            t.check(big(&got) == e && got == fe(&e), || format!("{name}: sum_of_products of length {} on near-modulus operands (start {s})", $m));
+        }
+    }}; }
+    sop!(1); sop!(2); sop!(3); sop!(4); sop!(5); sop!(6); sop!(7); sop!(8); sop!(9);
 }
 
 fn sqrt_prime<F: PrimeField>(t: &mut Tally, name: &str) {
